@@ -3145,9 +3145,11 @@ class Scene:
             if ".csv" not in filename:
                 raise IOError("Export file for Scene.distributions() must be .csv.")
 
-            # Set up
-            item_types = [("aircraft", "U18"),
-                          ("segment", "U18"),
+            # Set up (name columns wide enough for the longest name)
+            name_width = max([18]+[len(airplane_object.name) for airplane_object in self._airplane_objects])
+            segment_width = max([18]+[len(segment.name) for airplane_object in self._airplane_objects for segment in airplane_object.segments])
+            item_types = [("aircraft", "U{0}".format(name_width)),
+                          ("segment", "U{0}".format(segment_width)),
                           ("span_frac", "float"),
                           ("cpx", "float"),
                           ("cpy", "float"),
